@@ -166,7 +166,7 @@ func (f *StringFormatter) Format(format string, values []value.Primary) (string,
 			}
 
 			if -1 < precision {
-				s = s[:precision]
+				s = truncateString(s, precision)
 			}
 
 			switch ch {
@@ -181,7 +181,7 @@ func (f *StringFormatter) Format(format string, values []value.Primary) (string,
 			rv := reflect.ValueOf(values[placeholderOrder]).Elem().Interface()
 			s = reflect.TypeOf(rv).Name()
 			if -1 < precision {
-				s = s[:precision]
+				s = truncateString(s, precision)
 			}
 
 			s = fmt.Sprintf(placeholder.String(), s)
@@ -201,6 +201,15 @@ func (f *StringFormatter) Format(format string, values []value.Primary) (string,
 	}
 
 	return f.buf.String(), nil
+}
+
+// truncateString returns the first n characters of s, or s itself if it has no more than n characters.
+func truncateString(s string, n int) string {
+	r := []rune(s)
+	if n < len(r) {
+		return string(r[:n])
+	}
+	return s
 }
 
 func (f *StringFormatter) runes() []rune {
